@@ -339,13 +339,16 @@ func C16(c *core.Ctx) {
 	type lim struct {
 		depth, nodes int
 		indef        bool
+		groups       int // > 0: the elements are spread over that many sibling constructed elements (depth 1)
 	}
 	var lims []lim
 	for d := 48; d <= 53; d++ {
-		lims = append(lims, lim{d, d, false}, lim{d, d, true}, lim{d, d + 100, false})
+		lims = append(lims, lim{d, d, false, 0}, lim{d, d, true, 0}, lim{d, d + 100, false, 0})
 	}
 	for k := 9998; k <= 10002; k++ {
-		lims = append(lims, lim{1, k, false}, lim{3, k, true}, lim{0, k, false})
+		lims = append(lims, lim{1, k, false, 0}, lim{3, k, true, 0}, lim{0, k, false, 0})
+		// the count is a property of the whole input: the same totals spread over 2 / 5000 sibling elements, both forms
+		lims = append(lims, lim{1, k, true, 2}, lim{1, k, true, 4999}, lim{1, k, false, 2}, lim{1, k, false, 4999})
 	}
 	var lines [][]byte
 	for _, r := range recs {
@@ -354,6 +357,9 @@ func C16(c *core.Ctx) {
 	limStart := len(lines)
 	for _, lm := range lims {
 		in := genLimit(lm.depth, lm.nodes, lm.indef)
+		if lm.groups > 0 {
+			in = genSpread(lm.groups, lm.nodes, lm.indef)
+		}
 		_, err, pan := safeDecode(in)
 		lines = append(lines, core.JSONLine(map[string]any{"k": "limit", "depth": lm.depth, "nodes": lm.nodes, "ok": err == nil && pan == nil}))
 	}
@@ -538,6 +544,28 @@ func genLimit(depth, nodes int, indef bool) []byte {
 		}
 	}
 	return body
+}
+
+// genSpread: `nodes` elements in all - `groups` sibling constructed elements with equally many primitive children, the
+// remainder as primitives at the top level.
+func genSpread(groups, nodes int, indef bool) []byte {
+	per := nodes/groups - 1
+	if per < 0 {
+		per = 0
+	}
+	var out []byte
+	kids := bytes.Repeat([]byte{0x04, 0x00}, per)
+	for g := 0; g < groups; g++ {
+		if indef {
+			out = append(append(append(out, 0x30, 0x80), kids...), 0, 0)
+		} else {
+			out = append(append(append(out, 0x30), encLenMin(len(kids))...), kids...)
+		}
+	}
+	for rest := nodes - groups*(per+1); rest > 0; rest-- {
+		out = append(out, 0x04, 0x00)
+	}
+	return out
 }
 
 func encLenMin(n int) []byte {
